@@ -24,7 +24,7 @@ REQUIRED = ["parse_sound", "last_member_decides", "lc_exact", "lc_exact_fails_wi
             "fact_framing_body", "accepted_bytes_pass_framing", "accepted_compact_is_three_canonical_segments", "one_signed_transaction_one_ref",
             "honest_compact_passes_framing", "decoder_alone_is_not_injective",
             "store_bytes_refine_graph_add", "hash_list_append_parses", "clock_shelf_decodes", "find_between_lc_reads_every_stored_tx",
-            "range_scan_stops_at_a_gap", "counters_read_back"]
+            "range_scan_stops_at_a_gap", "counters_read_back", "fact_store_bodies", "fact_store_keys"]
 
 HEX64 = re.compile(r"^[0-9a-fA-F]{64}$")
 
